@@ -127,7 +127,7 @@ class Session:
             if bad:
                 v.violation('allstop:task-not-stopped-at-prompt',
                             'a debuggee thread is not in tracing stop while the debugger reports a stop',
-                            dict(sample_ctx, tasks=tasks, reply=str(r.get('ok'))[:400], events=(r.get('ev') or [])[-12:],
+                            dict(sample_ctx, tasks=tasks, reply=str(r.get('ok'))[:400], error=str(r.get('err'))[:400], events=(r.get('ev') or [])[-12:],
                                  debugger_threads=m.get('thr'), history=self.history[-30:]), prop='C09')
             thr = m.get('thr')
             if thr is not None:
